@@ -7,8 +7,10 @@ open Mc.Meta
 def classOf (cls : String) : Class × List String :=
   let base := ["things.ctl.example.com/v1", "widgets.example.com/v1"]
   match cls with
-  | "ok" | "ok-etag" | "ok-finalize" => (.ok, base)
+  | "ok" | "ok-etag" | "ok-finalize" | "ok-resync" => (.ok, base)
   | "ok2" => (.ok, base ++ ["configmaps.v1"])
+  -- the related informer is opened by the first sync of a parent (every event ends after the running instances synced one)
+  | "ok-customize" => (.ok, base ++ ["configmaps.v1"])
   | "badparent" => (.early true, [])
   | "nostatus" => (.early false, [])
   | "badchild" => (.failing base, [])
@@ -28,6 +30,7 @@ def handleMeta (c : J) : Res := Id.run do
   let mut api : List (String × (String × Nat)) := []
   let mut wantRunning : List (String × String) := []   -- specification: name ↦ hook path
   let mut verdict : Option String := none
+  let mut prevInst : List (String × String) := []      -- identity of the hosted instances after the previous event
   for (e, i) in evs.zipIdx do
     let name := e.getStr "name"
     let typ := e.getStr "type"
@@ -56,12 +59,20 @@ def handleMeta (c : J) : Res := Id.run do
       wantRunning := wantRunning.filter (·.1 != name)
       if startable cls then wantRunning := wantRunning ++ [(name, s!"sync-{name}-{ver}")]
     let called := (e.getD "called").strList
+    let inst := (e.getD "instances").fields.map (fun kv => (kv.1, kv.2.strD ""))
+    -- "an update that leaves the spec unchanged does nothing", "other controllers are untouched": the instance object of
+    -- a controller the event is not about, and of the controller of a no-op update, is the one that ran before
+    let mustKeep := prevInst.filter (fun (n, _) => n != name || typ == "noop-update")
+    let instClause := firstSome mustKeep (fun (n, id) => check (inst.lookup n == some id)
+      s!"event {i} ({typ} {name} {cls}): the running instance of controller {n} was replaced or stopped although nothing about it changed")
+    prevInst := inst
     let wantSubs : List (String × Nat) := (wantRunning.flatMap (fun (n, _) => match api.lookup n with
         | some (cl, _) => (classOf cl).2
         | none => [])).foldl incr []
     if verdict.isNone then
       verdict :=
         orElse (check (e.getStr "panic" == "") s!"event {i} ({typ} {name} {cls}): Reconcile panicked: {e.getStr "panic"}") fun _ =>
+        orElse instClause fun _ =>
         orElse (firstSome wantRunning (fun (n, p) => check (implRunning.lookup n == some p) s!"event {i} ({typ} {name} {cls}): controller {n} must be running with the configuration {p}, found {implRunning.lookup n}")) fun _ =>
         orElse (firstSome implRunning (fun (n, p) => check (wantRunning.lookup n == some p) s!"event {i} ({typ} {name} {cls}): an instance {p} of controller {n} is running although its object was deleted, changed, or cannot start")) fun _ =>
         orElse (firstSome wantRunning (fun (_, p) => check (called.contains p) s!"event {i}: the running instance {p} did not sync a changed parent")) fun _ =>
